@@ -21,7 +21,7 @@ def stats(rows):
     return n, missed
 n1, m1 = stats(rows1); n2, m2 = stats(rows2)
 body = ("**First round** (%d changes, %d missed by the owning check at first):\n\n" % (n1, m1) + table(rows1) +
-        "\n\n**Second round** (%d changes so far, %d missed by the owning check at first; the agents were shown the list of ideas already used and asked for different mechanisms):\n\n" % (n2, m2) + table(rows2) + "\n")
+        "\n\n**Second round** (%d changes, %d missed by the owning check at first; the agents were shown the list of ideas already used and asked for different mechanisms):\n\n" % (n2, m2) + table(rows2) + "\n")
 s = open('/verif/DESIGN.md').read()
 s = re.sub(r'<!-- TRIALS-BEGIN -->.*<!-- TRIALS-END -->', '<!-- TRIALS-BEGIN -->\n' + body.replace('\\', '\\\\') + '<!-- TRIALS-END -->', s, flags=re.S)
 open('/verif/DESIGN.md', 'w').write(s)
